@@ -4,7 +4,7 @@ import AbraModel.Drv.Sem
    `<main>`, one instruction per `;`, in the `Display` spelling of assembly.rs with absolute jump targets and
    slots renamed in order of first appearance (the real numbering comes from hash-set iteration order);
    `not-f0` when the program is outside the fragment. -/
-namespace Abra.Drv
+namespace Abra.Drv.BG9
 open Abra.VM Abra.Compile
 
 def regName : Reg → String
@@ -63,6 +63,16 @@ def programText (p : Program) : String :=
     | i :: r => let (sn, t) := instrText seen i; t :: go sn r
   ";".intercalate (go [] p)
 
+
+def vmErrName : VM.Err → String
+  | .overflow => "overflow" | .divZero => "divzero" | .oob => "oob" | .panic => "panic"
+
+end Abra.Drv.BG9
+
+namespace Abra.Drv
+open Abra.Drv.BG9
+open Abra.VM Abra.Compile
+
 def handleCgen (toks : List String) : String :=
   match parseSExp toks with
   | some (sx, []) =>
@@ -72,6 +82,25 @@ def handleCgen (toks : List String) : String :=
       | some code => programText code
       | none => "not-f0"
     | none => "bad-op"
+  | _ => "bad-op"
+
+/-- `vmrun <fuel> <program>`: compile `<main>` with the model compiler and run it on the VM core -/
+def handleVmRun : List String → String
+  | fuel :: toks =>
+    match fuel.toNat?, parseSExp toks with
+    | some fuel, some (sx, []) =>
+      match toProg sx with
+      | some P =>
+        match compileMain P.main with
+        | none => "not-f0"
+        | some code =>
+          match VM.run code fuel State.init with
+          | .done s => s!"done {hexOfString (String.join s.out.reverse)}"
+          | .error k s => s!"error:{vmErrName k} {hexOfString (String.join s.out.reverse)}"
+          | .fault f => s!"fault:{repr f}".replace " " "_"
+          | .outOfFuel _ => "outoffuel"
+      | none => "bad-op"
+    | _, _ => "bad-op"
   | _ => "bad-op"
 
 end Abra.Drv
